@@ -36,6 +36,11 @@ example : (readAlloc true 7 ⟨10⟩ 1).1 = (readAlloc true 7 (readAlloc true 7 
     in a process-wide table -/
 theorem no_process_wide_memo : Generated.memoisedSites = [] := by decide
 
+/-- no function of the library — constructors of `Caption`, `CaptionSet`, `CaptionNode`, of the SCC reader's caption holders, any
+    method, any lambda — has a parameter default that is a mutable object built once at definition time (the translator's scan of
+    every module): an attribute initialised from a default is never one object shared by all instances -/
+theorem no_shared_default_objects : Generated.mutableDefaultSites = [] := by decide
+
 /-- **C10 (isolation of constructed objects).** with no memoising constructor, two objects built by the library — for the same
     key or for different ones, in one read or in two — are distinct objects, so an edit addressed to the first changes nothing
     of the second (a cue's layout edited in place does not show in another cue, another caption set or a later read) -/
